@@ -60,6 +60,7 @@ func startRaftNode(id uint64, nodeIds []uint64, storage wal.WAL, logger *log.Ent
 		Logger:          logger,
 	}
 
+	verifStart(id, nodeIds, storage)
 	if len(nodeIds) > 0 {
 		var peers []etcdRaft.Peer
 		for _, nodeId := range nodeIds {
@@ -193,16 +194,22 @@ func (this *RaftGroup) run() {
 			}
 		case <-ticker.C:
 			this.raft.Tick()
+		case skip := <-this.verifSnapshotC():
+			verifHook(this, "snapshot", nil, nil, this.trySnapshot(lastAppliedIdx, skip))
 		case rd := <-this.raft.Ready():
+			verifHook(this, "ready", &rd, nil, nil)
 			if rd.SoftState != nil {
 				this.raftLeaderId = atomic.LoadUint64(&rd.SoftState.Lead)
 			}
 			if this.isLeader() {
+				verifHook(this, "send1", &rd, nil, nil)
 				this.transport.Send(this.ctx, this, rd.Messages)
 			}
+			verifHook(this, "presave", &rd, nil, nil)
 			if err := this.wal.Save(rd.HardState, rd.Entries, rd.Snapshot); err != nil {
 				this.log.Fatal(err)
 			}
+			verifHook(this, "saved", &rd, nil, nil)
 			if !etcdRaft.IsEmptySnap(rd.Snapshot) {
 				this.log.Info("Process snapshot")
 				if err := this.processSnapshotFn(rd.Snapshot.Data); err != nil {
@@ -211,6 +218,7 @@ func (this *RaftGroup) run() {
 				if rd.Snapshot.Metadata.Index > lastAppliedIdx {
 					lastAppliedIdx = rd.Snapshot.Metadata.Index
 				}
+				verifHook(this, "snapinstalled", &rd, nil, nil)
 			}
 			for _, entry := range rd.CommittedEntries {
 				if entry.Type == raftpb.EntryConfChange {
@@ -223,11 +231,15 @@ func (this *RaftGroup) run() {
 					}
 				}
 				lastAppliedIdx = entry.Index
+				verifHook(this, "applied", &rd, &entry, nil)
 			}
 			if !this.isLeader() {
+				verifHook(this, "send2", &rd, nil, nil)
 				this.transport.Send(this.ctx, this, rd.Messages)
 			}
+			verifHook(this, "preadvance", &rd, nil, nil)
 			this.raft.Advance()
+			verifHook(this, "advanced", &rd, nil, nil)
 		case <-this.ctx.Done():
 			this.log.Info("Stop Raft")
 			return
